@@ -19,8 +19,9 @@ import json, os, re, subprocess, sys
 
 ROOT = os.path.dirname(os.path.dirname(os.path.abspath(__file__)))
 REPO = os.environ.get("VERIF_REPO_SRC") or os.path.join(os.environ.get("VERIF_REPO", "/repo"), "src")
-OUT = os.path.join(ROOT, "lean", "LSModel", "GenRepr.lean")
-STATUS = os.path.join(ROOT, "tools", "rs2lean.status.json")
+LEAN_DIR = os.environ.get("RS2LEAN_LEAN_DIR") or os.path.join(ROOT, "lean")   # a scratch copy of the Lean project may be named
+OUT = os.path.join(LEAN_DIR, "LSModel", "GenRepr.lean")
+STATUS = os.environ.get("RS2LEAN_STATUS") or os.path.join(ROOT, "tools", "rs2lean.status.json")
 
 # ------------------------------------------------------------------------------------------- tokens
 TOK = re.compile(r"""
@@ -37,6 +38,12 @@ TOK = re.compile(r"""
 
 class Bad(Exception):
     pass
+
+def cfg_false(attr):
+    """a `#[cfg(...)]` attribute that is false on the modelled target (x86-64, release, not loom)"""
+    a = attr.replace(" ", "")
+    return ('cfg(target_pointer_width="32")' in a or "cfg(loom)" in a or "cfg(debug_assertions)" in a
+            or "cfg(not(target_pointer_width=\"64\"))" in a)
 
 def tokenize(src):
     out, i = [], 0
@@ -165,9 +172,10 @@ class P:
     def block(self):
         self.eat("{")
         stmts, tail = [], None
+        pending_tail = None
         while not self.at("}"):
             at = self.attrs()
-            hooks = any("verif-hooks" in a for a in at)
+            hooks = any("verif-hooks" in a for a in at) or any(cfg_false(a) for a in at)
             k, v = self.peek()
             if v in ("fn", "struct", "impl", "const", "use", "enum", "static") and k == "id" and not (v == "const" and self.peek(1)[1] == "{"):
                 self.item()
@@ -192,10 +200,12 @@ class P:
                 # block-like expression statement without a semicolon
                 if not hooks:
                     stmts.append(("expr", e))
+                    pending_tail = len(stmts)
             elif self.at("="):
                 self.eat()
                 rhs = self.expr()
-                self.eat(";")
+                if not self.at("}"):
+                    self.eat(";")
                 if not hooks:
                     stmts.append(("assign", e, rhs))
             elif self.peek()[1] in ("+=", "-="):
@@ -207,6 +217,9 @@ class P:
             else:
                 raise Bad(f"statement: unexpected {self.peek()[1]!r} after expression")
         self.eat("}")
+        if tail is None and pending_tail is not None and pending_tail == len(stmts) and stmts[-1][1][0] == "block":
+            # `{ #[cfg(a)] { x } #[cfg(not a)] { y } }`: the block that survives the cfg is the value
+            tail = stmts.pop()[1]
         return ("block", stmts, tail)
 
     def item(self):
@@ -363,7 +376,14 @@ class P:
                 return ("unit",)
             e = self.expr()
             if self.at(","):
-                raise Bad("tuple expression")
+                items = [e]
+                while self.at(","):
+                    self.eat()
+                    if self.at(")"):
+                        break
+                    items.append(self.expr())
+                self.eat(")")
+                return ("tuple", items)
             self.eat(")")
             return e
         if v == "[" and k == "op":
@@ -417,7 +437,10 @@ class P:
             while self.at("::"):
                 self.eat()
                 if self.at("<"):
+                    start = self.i
                     self.skip_angles()
+                    if path == ["size_of"]:
+                        path = ["size_of_" + "".join(v for _, v in self.t[start + 1:self.i - 1])]
                     continue
                 path.append(self.eat()[1])
             if self.at("!") and self.peek(1)[1] in ("(", "[", "{") and self.peek(1)[0] == "op":
@@ -427,7 +450,20 @@ class P:
                 self.skip_balanced(o, {"(": ")", "[": "]", "{": "}"}[o])
                 return ("macro", path[-1], self.t[start + 1:self.i - 1])
             if self.at("{") and not nostruct and path[-1][:1].isupper() and self.peek(1)[0] == "id" and self.peek(2)[1] in (":", ",", "}"):
-                raise Bad("struct literal")
+                self.eat("{")
+                fields = []
+                while not self.at("}"):
+                    fname = self.eat()[1]
+                    if self.at(":"):
+                        self.eat()
+                        fval = self.expr()
+                    else:
+                        fval = ("path", [fname])
+                    fields.append((fname, fval))
+                    if self.at(","):
+                        self.eat()
+                self.eat("}")
+                return ("struct", path, fields)
             return ("path", path)
         raise Bad(f"primary: unexpected {v!r}")
 
@@ -465,13 +501,30 @@ class P:
         arms = []
         while not self.at("}"):
             self.attrs()
-            # pattern: Ctor(name) | Ctor | _ | name
-            pk, pv = self.eat()
-            pat = [pv]
+            # pattern: Ctor(name) | Ctor | _ | name | (lit, lit) [| (lit, lit)]*
             if self.at("("):
-                self.eat()
-                pat.append(self.eat()[1])
-                self.eat(")")
+                alts = []
+                while True:
+                    self.eat("(")
+                    tup = []
+                    while not self.at(")"):
+                        tup.append(self.eat()[1])
+                        if self.at(","):
+                            self.eat()
+                    self.eat(")")
+                    alts.append(tup)
+                    if self.at("|"):
+                        self.eat()
+                        continue
+                    break
+                pat = ["$tuple", alts]
+            else:
+                pk, pv = self.eat()
+                pat = [pv]
+                if self.at("("):
+                    self.eat()
+                    pat.append(self.eat()[1])
+                    self.eat(")")
             if self.at("|") or self.at("if"):
                 raise Bad("complex match pattern")
             self.eat("=>")
@@ -578,7 +631,8 @@ def lean_ty(t):
 
 # ------------------------------------------------------------------------------------------ lowering
 KEYWORDS = {"end", "at", "from", "do", "then", "fun", "show", "have", "by", "in", "open", "let", "match", "with", "if", "else",
-            "Type", "Prop", "where", "namespace", "section", "import", "def", "theorem", "instance", "class", "structure", "next"}
+            "Type", "Prop", "where", "namespace", "section", "import", "def", "theorem", "instance", "class", "structure", "next",
+            "ptr"}   # `ptr`: a local of that name would capture the module path `ptr::write`
 
 def ident(n):
     return n + "_" if n in KEYWORDS else n
@@ -601,6 +655,8 @@ class Lower:
         self.static_fn = static_fn      # no `self` receiver: an owned local `LeanString` becomes the state's `self`
         self.owned = None               # name of that local
         self.rename = rename or {}      # method names resolved by type in Rust (`extend` on different item types)
+        self.field_ok = False           # heap_buffer.rs: plain field reads / writes are translated
+        self.self_ns = "Repr"           # namespace of `self.method(..)` (Repr / HeapBuffer)
 
     def fresh(self):
         self.n += 1
@@ -631,7 +687,7 @@ class Lower:
                 return k(ident(p[0]))
             if p == ["isize", "MAX"]:
                 return k("isize_MAX")
-            return k(".".join("Repr" if x == "Self" else x for x in p))
+            return k(".".join(getattr(self, "self_ty", "Repr") if x == "Self" else x for x in p))
         if t == "deref":
             return self.ex(e[1], k, ind)
         if t == "cast":
@@ -645,6 +701,11 @@ class Lower:
         if t == "field":
             if self.is_self(e[1]) and e[2] == "0":
                 return self.bindc("Repr.field_0", k, ind)
+            if self.field_ok:
+                # heap_buffer.rs: `self.ptr`, `self.len`, `buf.ptr`, `x.capacity` are reads of plain fields
+                if e[1] == ("path", ["self"]):
+                    return self.bindc(f"{self.self_ns}.get_{e[2]}", k, ind)
+                return self.ex(e[1], lambda r: self.bindc(f"{r}.rs_get_{e[2]}", k, ind), ind)
             raise Bad(f"field access .{e[2]}")
         if t == "try":
             return self.ex(e[1], lambda a: self.bindc(f"try_ {a}", k, ind), ind)
@@ -683,11 +744,13 @@ class Lower:
             f = e[1]
             if f[0] != "path":
                 raise Bad("call of a non-path")
-            p = ["Repr" if x == "Self" else x for x in f[1]]
+            p = [getattr(self, "self_ty", "Repr") if x == "Self" else x for x in f[1]]
             if p == ["ptr", "read"] and len(e[2]) == 1 and self.is_self(e[2][0]):
                 return self.bindc("Repr.read_self", k, ind)
             if p in (["drop"], ["mem", "drop"]):
                 raise Bad("explicit drop")
+            if len(p) == 1 and p[0].startswith("size_of_") and not e[2]:
+                return k(p[0])
             name = {"Ok": "rs_Ok", "Err": "rs_Err", "Some": "rs_Some"}.get(p[0], None) if len(p) == 1 else None
             if len(p) == 2 and p[0] == "LeanString" and p[1] in self.rename:
                 p = ["LeanString", self.rename[p[1]]]
@@ -702,7 +765,7 @@ class Lower:
                 body = self.block(cb, lambda a: "Rt.pure ()", ind + 2)
                 return self.ex(recv, lambda it: self.bindc(f"{it}.rs_for_each (fun {ident(cl[1])} =>\n{'  ' * (ind + 2)}{body})", k, ind), ind)
             if self.is_self(recv):
-                head = f"Repr.{name}"
+                head = f"{self.self_ns}.{self.rename.get(name, name)}"
                 wrap = head in self.generated
                 return self.args(args, lambda as_: self.bindc(self.app(head, as_, wrap), k, ind), ind)
             if self.self_field and (recv == ("path", ["self"]) or (self.owned and recv == ("path", [self.owned]))):
@@ -732,6 +795,11 @@ class Lower:
             else:
                 name, args = "index", [idx]
             return self.ex(("mcall", recv, name, args), k, ind)
+        if t == "struct":
+            name = ".".join("Repr" if x == "Self" else x for x in e[1]) + ".mk"
+            return self.args([fv for _, fv in e[2]], lambda as_: self.bindc(self.app(name, as_, False), k, ind), ind)
+        if t == "tuple":
+            return self.args(e[1], lambda as_: k("(" + ", ".join(as_) + ")"), ind)
         if t == "for":
             # `for x in it { body }`  ==  `it.for_each(|x| body)`
             body = self.block(e[3], lambda a: "Rt.pure ()", ind + 2)
@@ -754,6 +822,13 @@ class Lower:
         if t == "macro":
             if e[1] in ("debug_assert", "debug_assert_eq", "debug_assert_ne"):
                 return k("()")
+            if e[1] == "cfg":
+                txt = "".join(v for _, v in e[2])
+                if txt in ("debug_assertions",):
+                    return k("false")            # release semantics
+                raise Bad(f"cfg!({txt})")
+            if e[1] in ("panic", "unreachable"):
+                return "alarm UB.oob"
             if e[1] == "assert":
                 toks, depth, cut = e[2], 0, None
                 for j, (kk, vv) in enumerate(toks):
@@ -787,8 +862,28 @@ class Lower:
         pad = "  " * ind
         return f"Rt.bind ({comp}) fun {v} =>\n{pad}{k(v)}"
 
+    def flatten(self, stmts):
+        out = []
+        for st in stmts:
+            if st[0] == "expr" and st[1][0] == "block" and st[1][2] is None:
+                out.extend(self.flatten(st[1][1]))      # `unsafe { a; b; }` as a statement: same scope for our purposes
+            else:
+                out.append(st)
+        return out
+
+    def assigned_locals(self, blk):
+        """names assigned in a block that consists only of assignments to plain locals (else None)"""
+        names = []
+        for st in self.flatten(blk[1]):
+            if st[0] == "assign" and st[1][0] == "path" and len(st[1][1]) == 1:
+                names.append(st[1][1][0])
+            else:
+                return None
+        return names if names and blk[2] is None else None
+
     def block(self, b, k, ind):
         _, stmts, tail = b
+        stmts = self.flatten(stmts)
         def go(i):
             if i == len(stmts):
                 if tail is None:
@@ -812,12 +907,25 @@ class Lower:
             if s[0] == "lettuple":
                 pat = "(" + ", ".join(ident(n) for n in s[1]) + ")"
                 return self.ex(s[2], lambda a: (f"Rt.bind (Rt.pure {a}) fun {pat} =>\n{'  ' * ind}{go(i + 1)}"), ind)
+            if s[0] == "expr" and s[1][0] == "if" and s[1][3] is None and self.assigned_locals(s[1][2]):
+                # `if c { x = e; }`: the branch rebinds locals of the enclosing scope
+                names = self.assigned_locals(s[1][2])
+                tup = "(" + ", ".join(ident(n) for n in dict.fromkeys(names)) + ")" if len(set(names)) > 1 else ident(names[0])
+                pad = "  " * ind
+                def after(c):
+                    thenb = self.block(("block", s[1][2][1], None), lambda _: f"Rt.pure {tup}", ind + 2)
+                    return (f"Rt.bind (ifM {c} (\n{pad}    {thenb})\n{pad}  (Rt.pure {tup})) fun {tup} =>\n{pad}{go(i + 1)}")
+                return self.ex(s[1][1], after, ind)
             if s[0] == "expr":
                 return self.ex(s[1], lambda a: go(i + 1), ind)
             if s[0] == "assign":
                 lhs = s[1]
                 if lhs[0] == "deref" and self.is_self(lhs[1]):
-                    return self.ex(s[2], lambda a: self.bindc(f"Repr.assign {a}", lambda _: go(i + 1), ind), ind)
+                    return self.ex(s[2], lambda a: self.bindc(f"{self.self_ns}.assign {a}", lambda _: go(i + 1), ind), ind)
+                if self.field_ok and lhs[0] == "field" and lhs[1] == ("path", ["self"]):
+                    return self.ex(s[2], lambda a: self.bindc(f"{self.self_ns}.set_{lhs[2]} {a}", lambda _: go(i + 1), ind), ind)
+                if self.field_ok and lhs[0] == "deref" and lhs[1] == ("path", ["self"]):
+                    return self.ex(s[2], lambda a: self.bindc(f"{self.self_ns}.assign {a}", lambda _: go(i + 1), ind), ind)
                 if lhs[0] == "path" and len(lhs[1]) == 1:
                     # `x = e` / `x += e` on a `let mut` local: rebind
                     v = ident(lhs[1][0])
@@ -842,6 +950,13 @@ class Lower:
         pad = "  " * ind
         out = [f"match {s} with"]
         for pat, body in arms:
+            if pat[0] == "$tuple":
+                if body[0] != "block":
+                    body = ("block", [], body)
+                txt = self.block(body, lambda a: f"Rt.pure {a}", ind + 2)
+                for tup in pat[1]:
+                    out.append(f"{pad}  | (" + ", ".join(tup) + f") => (\n{pad}    {txt})")
+                continue
             ctor = {"Some": "some", "None": "none", "Ok": "Rs.ok", "Err": "Rs.err", "_": "_"}.get(pat[0])
             if ctor is None:
                 raise Bad(f"match pattern {pat[0]}")
@@ -862,6 +977,17 @@ class Lower:
 # -------------------------------------------------------------------------------------------- driver
 # (file, impl header, function, emitted name, self is `self.0`)
 TARGETS = [
+    ("repr/heap_buffer.rs", "impl TextLen", "new", "TextLen.new_body", False, {"ns": "TextLen", "trust_sig": True, "self_ty": "TextLen"}),
+    ("repr/heap_buffer.rs", "impl Capacity", "new", "Capacity.new_body", False, {"ns": "Capacity", "trust_sig": True, "self_ty": "Capacity"}),
+    ("repr/heap_buffer.rs", "impl HeapBuffer", "allocate_ptr", "HeapBuffer.allocate_ptr_body", False, {"ns": "HeapBuffer", "trust_sig": True, "self_ty": "HeapBuffer"}),
+    ("repr/heap_buffer.rs", "impl HeapBuffer", "new", "HeapBuffer.new_body", False, {"ns": "HeapBuffer", "trust_sig": True, "self_ty": "HeapBuffer"}),
+    ("repr/heap_buffer.rs", "impl HeapBuffer", "with_capacity", "HeapBuffer.with_capacity_body", False, {"ns": "HeapBuffer", "trust_sig": True, "self_ty": "HeapBuffer"}),
+    ("repr/heap_buffer.rs", "impl HeapBuffer", "with_additional", "HeapBuffer.with_additional_body", False, {"ns": "HeapBuffer", "trust_sig": True, "self_ty": "HeapBuffer"}),
+    ("repr/heap_buffer.rs", "impl HeapBuffer", "allocation", "HeapBuffer.allocation_body", False, {"ns": "HeapBuffer", "trust_sig": True, "self_ty": "HeapBuffer"}),
+    ("repr/heap_buffer.rs", "impl HeapBuffer", "capacity", "HeapBuffer.capacity_body", False, {"ns": "HeapBuffer", "trust_sig": True, "self_ty": "HeapBuffer"}),
+    ("repr/heap_buffer.rs", "impl HeapBuffer", "is_unique", "HeapBuffer.is_unique_body", False, {"ns": "HeapBuffer", "trust_sig": True, "self_ty": "HeapBuffer"}),
+    ("repr/heap_buffer.rs", "impl HeapBuffer", "dealloc", "HeapBuffer.dealloc_body", False, {"ns": "HeapBuffer", "trust_sig": True, "self_ty": "HeapBuffer"}),
+    ("repr/heap_buffer.rs", "impl HeapBuffer", "realloc", "HeapBuffer.realloc_body", False, {"ns": "HeapBuffer", "trust_sig": True, "self_ty": "HeapBuffer"}),
     ("repr.rs", "impl Repr", "new", "Repr.new", False),
     ("repr.rs", "impl Repr", "from_str", "Repr.from_str", False),
     ("repr.rs", "impl Repr", "with_capacity", "Repr.with_capacity", False),
@@ -929,6 +1055,12 @@ TARGETS = [
 ]
 # expected Lean signatures (used for the stub of a poisoned function, and checked against the source)
 SIGS = {
+    "TextLen.new_body": ([("size", "Nat")], "Rs TextLenV"), "Capacity.new_body": ([("capacity", "Nat")], "Rs CapV"),
+    "HeapBuffer.allocate_ptr_body": ([("capacity", "CapV")], "Rs NonNullV"), "HeapBuffer.new_body": ([("text", "Str")], "Rs HeapBuf"),
+    "HeapBuffer.with_capacity_body": ([("capacity", "Nat")], "Rs HeapBuf"),
+    "HeapBuffer.with_additional_body": ([("text", "Str"), ("additional", "Nat")], "Rs HeapBuf"),
+    "HeapBuffer.allocation_body": ([], "RawPtrV"), "HeapBuffer.capacity_body": ([], "Nat"), "HeapBuffer.is_unique_body": ([], "Bool"),
+    "HeapBuffer.dealloc_body": ([], "Unit"), "HeapBuffer.realloc_body": ([("new_capacity", "Nat")], "Rs Unit"),
     "Repr.new": ([], "Handle"), "Repr.from_str": ([("text", "Str")], "Rs Handle"),
     "Repr.with_capacity": ([("capacity", "Nat")], "Rs Handle"), "Repr.from_static_str": ([("text", "SStr")], "Rs Handle"), "Repr.capacity": ([], "Nat"), "Repr.is_unique": ([], "Bool"),
     "Repr.replace_inner": ([("other", "Handle")], "Unit"), "Repr.set_len": ([("new_len", "Nat")], "Unit"),
@@ -978,7 +1110,8 @@ def pick64(variants):
         raise Bad(f"{len(ok)} candidate definitions")
     return ok[0]
 
-def translate_one(srcs, cache, file, header, fn, lname, self_field, generated):
+def translate_one(srcs, cache, file, header, fn, lname, self_field, generated, opts=None):
+    opts = opts or {}
     if (file, header) not in cache:
         cache[(file, header)] = find_fns(srcs[file], header)
     fns = cache[(file, header)]
@@ -988,22 +1121,32 @@ def translate_one(srcs, cache, file, header, fn, lname, self_field, generated):
     ps = split_params(params)
     lps = []
     for idx_, (n, t) in enumerate(ps):
-        lt = lean_ty(t)
+        lt = lean_ty(t) or ("?" if opts.get("trust_sig") else None)
         if lt is None and re.match(r"^[A-Z]$", t) and idx_ < len(SIGS[lname][0]):
             lt = SIGS[lname][0][idx_][1]      # a generic `T: IntoIterator<Item = …>`: the iterator as data
         if lt is None:
             raise Bad(f"parameter type {t!r}")
         lps.append((ident(n), lt))
-    rt = lean_ty(ret)
+    rt = lean_ty(ret) or ("?" if opts.get("trust_sig") else None)
     if rt is None:
         raise Bad(f"return type {ret!r}")
     exp = SIGS[lname]
-    if [t for _, t in lps] != [t for _, t in exp[0]] or rt != exp[1]:
+    if opts.get("trust_sig"):
+        # heap_buffer.rs: `Self`, `Capacity`, … mean other Lean types here; only the arity is compared
+        if len(ps) != len(exp[0]):
+            raise Bad(f"signature changed: {len(ps)} parameters")
+        lps = [(ident(n), t) for (n, _), (_, t) in zip(ps, exp[0])]
+        rt = exp[1]
+    elif [t for _, t in lps] != [t for _, t in exp[0]] or rt != exp[1]:
         raise Bad(f"signature changed: ({lps}) -> {rt}")
     p = P(body)
     blk = p.block()
     static_fn = not any(v == "self" for _, v in params)
     lo = Lower(generated, self_field, static_fn, RENAMES.get(lname))
+    if opts.get("ns"):
+        lo.self_ns = opts["ns"]
+        lo.field_ok = True
+    lo.self_ty = opts.get("self_ty", "Repr")
     text = lo.block(blk, lambda a: f"Rt.pure {a}", 1)
     sig = "".join(f" ({n} : {t})" for n, t in lps)
     return f"def {lname}{sig} : M ({rt}) ({rt}) :=\n  {text}\n"
@@ -1021,12 +1164,14 @@ def emit(defs):
     return hdr + "\n".join(defs) + "\nend LS.GenRepr\n"
 
 def main():
-    srcs = {f: open(os.path.join(REPO, f)).read() for f in ("repr.rs", "lib.rs")}
-    generated = {ln for (_, h, fn, ln, _) in TARGETS if not ln.endswith("_body")}
+    srcs = {f: open(os.path.join(REPO, f)).read() for f in ("repr.rs", "lib.rs", "repr/heap_buffer.rs")}
+    generated = {t[3] for t in TARGETS if not t[3].endswith("_body")}
     cache, defs, status = {}, {}, {}
-    for file, header, fn, lname, sf in TARGETS:
+    for tgt in TARGETS:
+        file, header, fn, lname, sf = tgt[:5]
+        opts = tgt[5] if len(tgt) > 5 else None
         try:
-            defs[lname] = translate_one(srcs, cache, file, header, fn, lname, sf, generated)
+            defs[lname] = translate_one(srcs, cache, file, header, fn, lname, sf, generated, opts)
             status[lname] = "ok"
         except Bad as e:
             defs[lname] = stub(lname, str(e))
@@ -1036,7 +1181,7 @@ def main():
             status[lname] = f"poisoned: translator error {type(e).__name__}: {e}"
     order = [t[3] for t in TARGETS]
     # elaborate; poison what does not elaborate (a source change the runtime library has no meaning for)
-    lean_dir = os.path.join(ROOT, "lean")
+    lean_dir = LEAN_DIR
     for round_ in range(4):
         text = emit([defs[n] for n in order])
         open(OUT, "w").write(text)
